@@ -279,6 +279,9 @@ func TestC07(t *testing.T) {
 
 		// 7. corrupted key rows seen by a cold factory
 		c.corruptRows(rng)
+
+		// 9. the same structural mutants against a region-suffixing metastore (suffixed partition id checks)
+		suffixedPass(r, rng)
 		synctest.Wait()
 	})
 	r.Exhaustive(true)
@@ -401,4 +404,58 @@ func (c *c07) corruptRows(rng *rand.Rand) {
 		try("row-missing", fmt.Sprintf("row (%s,%d) missing", rr.id, rr.created), "nocache")
 		set(orig)
 	}
+}
+
+
+// suffixedPass re-runs the parent-key-meta and structural mutants on a factory whose metastore advertises a
+// region suffix, where partition validation follows a different code path.
+func suffixedPass(r *ev.Run, rng *rand.Rand) {
+	c := &c07{r: r, w: world.New("memguard"), sess: map[string]*appencryption.Session{}, byData: map[string][]byte{}}
+	defer c.w.Close()
+	c.w.Suffix = "us-west-2"
+	c.f = c.w.Factory(world.Default(time.Hour, time.Minute, time.Minute), "svc", "prod")
+	ctx := context.Background()
+	for _, p := range []string{"P", "Q"} {
+		s, _ := c.f.GetSession(p)
+		c.sess[p] = s
+		for _, n := range []int{0, 16} {
+			pl := make([]byte, n)
+			rng.Read(pl)
+			d, err := s.Encrypt(ctx, pl)
+			if err != nil {
+				panic(err)
+			}
+			c.corpus = append(c.corpus, genuine{p, pl, d})
+			c.byData[string(d.Data)] = pl
+		}
+	}
+	for gi, g := range c.corpus {
+		full := g.drr.Key.ParentKeyMeta.ID
+		ids := []string{"", "_", "_IK_", "_IK_P", "_IK_P_svc", "_IK_P_svc_prod", "_IK_P_svc_prod_", "_IK_P_svc_prod_eu-west-1", "_IK_Q_svc_prod_us-west-2", "_SK_svc_prod_us-west-2", "x"}
+		for n := 0; n <= len(full); n++ {
+			ids = append(ids, full[:n])
+		}
+		for _, id := range ids {
+			for _, cr := range []int64{g.drr.Key.ParentKeyMeta.Created, 0} {
+				m := world.CopyDRR(g.drr)
+				m.Key.ParentKeyMeta = &appencryption.KeyMeta{ID: id, Created: cr}
+				c.check(g.part, m, "suffixed-parent-meta", func() string { return fmt.Sprintf("suffixed record#%d with ParentKeyMeta{%q,%d}", gi, id, cr) })
+			}
+		}
+		m := world.CopyDRR(g.drr)
+		m.Key.ParentKeyMeta = nil
+		c.check(g.part, m, "suffixed-nil-parent", func() string { return "suffixed record ParentKeyMeta=nil" })
+		m = world.CopyDRR(g.drr)
+		m.Key = nil
+		c.check(g.part, m, "suffixed-nil-key", func() string { return "suffixed record Key=nil" })
+		for bit := 0; bit < len(g.drr.Data)*8; bit += 5 {
+			m := world.CopyDRR(g.drr)
+			m.Data = flip(g.drr.Data, bit)
+			c.check(g.part, m, "suffixed-bitflip-data", func() string { return fmt.Sprintf("suffixed record#%d Data bit %d", gi, bit) })
+		}
+	}
+	for _, s := range c.sess {
+		s.Close()
+	}
+	c.f.Close()
 }
